@@ -14,6 +14,7 @@ import (
 
 	"github.com/go-python/gpython/py"
 	"github.com/go-python/gpython/simrt"
+	"github.com/go-python/gpython/simrt/simfs"
 	"github.com/go-python/gpython/zzverif/gen"
 	"github.com/go-python/gpython/zzverif/harness"
 	"github.com/go-python/gpython/zzverif/pyhost"
@@ -192,8 +193,21 @@ func (Engine) Gen(seed uint64, idx int, tier string) interface{} {
 		}
 		sc.Tasks = append(sc.Tasks, items)
 	}
+	if r.Chance(1, 4) {
+		// the same sources as files, compiled through a context's
+		// ResolveAndCompile (the path imports and RunFile take)
+		for t := range sc.Tasks {
+			for i := range sc.Tasks[t] {
+				if sc.Tasks[t][i].Mode == "exec" && r.Chance(2, 3) {
+					sc.Tasks[t][i].Mode = "file"
+				}
+			}
+		}
+	}
 	if r.Chance(1, 3) {
 		sc.Runner = gen.GenScope(simrt.NewRand(r.Uint64()), 2).Render()
+	} else if r.Chance(1, 4) {
+		sc.Runner = builtinsRunner(r)
 	}
 	switch r.Intn(4) {
 	case 0:
@@ -286,6 +300,51 @@ func (Engine) Describe() harness.EngineInfo {
 	}
 }
 
+// builtinsRunner: the compile / eval / exec builtins applied to the same text
+// in different modes and orders, with known answers ("ka" lines: the two values
+// must be equal).
+func builtinsRunner(r *simrt.Rand) string {
+	a, b := r.Intn(1000), r.Intn(1000)
+	var sb strings.Builder
+	sb.WriteString("from simlog import log, exc_name\ndef _t(f, *a):\n    try:\n        return f(*a)\n    except Exception as _e:\n        return exc_name(_e)\n")
+	fmt.Fprintf(&sb, "T = \"%d + %d\"\nS = \"zq%d = %d\"\n", a, b, a, b)
+	steps := []string{
+		"exec(T)",
+		fmt.Sprintf("log(\"ka\", _t(eval, T), %d)", a+b),
+		"log(\"ka\", _t(eval, S), \"SyntaxError\")",
+		"exec(S)",
+		fmt.Sprintf("log(\"ka\", zq%d, %d)", a, b),
+		fmt.Sprintf("log(\"ka\", eval(compile(T, \"<t>\", \"eval\")), %d)", a+b),
+		"log(\"ka\", eval(compile(T, \"<t>\", \"exec\")), None)",
+		"log(\"ka\", _t(compile, S, \"<t>\", \"eval\"), \"SyntaxError\")",
+		fmt.Sprintf("log(\"ka\", _t(eval, T), %d)", a+b),
+	}
+	// the eval of S, exec of S etc. in a seeded order (zq is read only after exec(S))
+	order := []int{0, 1, 2, 3, 4, 5, 6, 7, 8}
+	if r.Chance(1, 2) {
+		order = []int{1, 0, 8, 5, 6, 3, 2, 4, 7}
+	}
+	for _, i := range order {
+		sb.WriteString(steps[i] + "\n")
+	}
+	return sb.String()
+}
+
+const cdDir = "/simcwd/cd"
+
+var anchorSrc = "ANCHOR = 1\ndef anchor(a, b=2):\n    return a + b\n"
+
+func filePath(k int) string { return fmt.Sprintf("%s/k%d.py", cdDir, k) }
+
+// compileFile compiles a file of the simulated tree through the context.
+func compileFile(ctx py.Context, name string) string {
+	out, err := ctx.ResolveAndCompile(name, py.CompileOpts{UseSysPaths: true})
+	if err != nil {
+		return "ERROR:" + pyhost.ExcClass(err)
+	}
+	return pyhost.DumpCode(out.Code)
+}
+
 func mode(m string) py.CompileMode {
 	switch m {
 	case "eval":
@@ -339,6 +398,27 @@ func (Engine) Exec(sci interface{}, opt harness.ExecOpts) *harness.Outcome {
 		}
 		texts[i] = t
 	}
+	hasFile := false
+	for _, items := range sc.Tasks {
+		for _, it := range items {
+			if it.Mode == "file" {
+				hasFile = true
+			}
+		}
+	}
+	var fctx py.Context
+	if hasFile {
+		fs := simfs.New()
+		fs.AddDir(cdDir)
+		for i, t := range texts {
+			fs.AddFile(filePath(i), t)
+		}
+		fs.AddFile(cdDir+"/anchor.py", anchorSrc)
+		simfs.Install(fs)
+		defer simfs.Install(nil)
+		fctx = py.NewContext(py.ContextOpts{SysArgs: []string{"sim"}, SysPaths: []string{cdDir}})
+		defer fctx.Close()
+	}
 	type key struct {
 		k int
 		m string
@@ -354,7 +434,12 @@ func (Engine) Exec(sci interface{}, opt harness.ExecOpts) *harness.Outcome {
 				for _, it := range items {
 					kk := key{it.Key, it.Mode}
 					if _, ok := base[kk]; !ok {
-						base[kk] = compileOne(texts[it.Key], sc.Sources[it.Key].Name, it.Mode)
+						if it.Mode == "file" {
+							// the specification of a file compile: Compile of its content under its path
+							base[kk] = compileOne(texts[it.Key], filePath(it.Key), "exec")
+						} else {
+							base[kk] = compileOne(texts[it.Key], sc.Sources[it.Key].Name, it.Mode)
+						}
 					}
 				}
 			}
@@ -389,10 +474,24 @@ func (Engine) Exec(sci interface{}, opt harness.ExecOpts) *harness.Outcome {
 				o := it.Order
 				simrt.Current().Order = &o
 				simrt.Log("compile.begin", fmt.Sprintf("%d %s %s", it.Key, it.Mode, it.Order))
-				d := compileOne(texts[it.Key], sc.Sources[it.Key].Name, it.Mode)
+				var d string
+				if it.Mode == "file" {
+					d = compileFile(fctx, fmt.Sprintf("k%d", it.Key))
+				} else {
+					d = compileOne(texts[it.Key], sc.Sources[it.Key].Name, it.Mode)
+				}
 				simrt.Log("compile.end", fmt.Sprintf("%d %x", it.Key, simrt.MixStr(0, d)))
 				all = append(all, obs{ti, it, d})
 			}
+		})
+	}
+	anchorGot, anchorWant := "", ""
+	if hasFile {
+		// one file with the same content in every scenario of this process,
+		// requested before and after the others
+		sim.Spawn("anchor", func() {
+			anchorWant = compileOne(anchorSrc, cdDir+"/anchor.py", "exec")
+			anchorGot = compileFile(fctx, "anchor")
 		})
 	}
 	var runTrace []string
@@ -441,7 +540,20 @@ func (Engine) Exec(sci interface{}, opt harness.ExecOpts) *harness.Outcome {
 			out.Violate("nondeterministic-code", sig, "%s (%s): code object of task %d under order %s differs from the baseline: %s", sc.Sources[o.it.Key].Name, o.it.Mode, o.task, o.it.Order, firstDiffLine(b, o.dump))
 		}
 	}
+	if hasFile && len(res.Panics) == 0 && !res.Capped {
+		out.Probe("file_compiles_through_context")
+		if anchorGot != anchorWant {
+			out.Violate("nondeterministic-code", "code|file|anchor", "anchor.py compiled through ResolveAndCompile differs from Compile of its content: %s", firstDiffLine(anchorWant, anchorGot))
+		}
+	}
 	if sc.Runner != "" && len(res.Panics) == 0 && !res.Capped {
+		for _, l := range runTrace {
+			f := strings.Fields(l)
+			if len(f) == 3 && f[0] == "\"ka\"" && f[1] != f[2] {
+				out.Violate("compile-builtin-wrong-mode-or-text", "runner|ka", "eval/exec/compile builtin gave %s where %s is the only possible answer (trace line %q)", f[1], f[2], l)
+				break
+			}
+		}
 		if d := pyhost.DiffTrace(runTrace, soloTrace); d != "" || runExc != soloExc {
 			out.Violate("compilation-visible-to-running-context", "runner", "program running beside compilations behaved differently from its solo run: %s (exc %q vs %q)", d, runExc, soloExc)
 		}
